@@ -92,15 +92,15 @@ def apply_op(g, op):
     """returns ('ok'|'rej'|'internal', exception text)"""
     install_sampler(g._cv_fake)
     p, t, a = op
+    before = (list(g.stacks), dict(g.pot.balances), len(g.actions), dict(g.last_actions))
     try:
         g.act(player=p, action=t, amount=a)
         return "ok", ""
     except Exception as e:
-        tb = e.__traceback__
-        names = []
-        while tb is not None:
-            names.append(tb.tb_frame.f_code.co_name); tb = tb.tb_next
-        kind = "internal" if "advance_action" in names else "rej"
+        # a rejection happens before anything is recorded; an exception after the action was recorded (log, chips
+        # or last action changed) is a failure inside the engine on an accepted action
+        after = (list(g.stacks), dict(g.pot.balances), len(g.actions), dict(g.last_actions))
+        kind = "internal" if after != before else "rej"
         return kind, f"{type(e).__name__}: {str(e)[:100]}"
 
 
